@@ -20,7 +20,7 @@ import types
 from concurrent.futures import ThreadPoolExecutor
 
 from insights.core import dr, plugins
-from insights.core.context import HostContext, SerializedArchiveContext
+from insights.core.context import ExecutionContext, HostContext, SerializedArchiveContext
 from insights.core.exceptions import (CalledProcessError, ContentException, SkipComponent,
                                       TimeoutException)
 from insights.core.serde import Hydration, deserializer, serializer
@@ -86,6 +86,21 @@ class Program(object):
         self.has_point = any(p["kind"] == "point" for p in case["prog"])
         self.deferred = []
         self.to_disable = []
+        # concretisation variant: the implementations of a spec with several implementations all work under one
+        # execution context (a class of this program's own, an instance of which every broker holds), the way
+        # the shipped spec sets do.  Registering a later implementation for a context tells the earlier ones
+        # for that context to keep quiet while it is present: they are declared as ignoring a present marker
+        # (id 0 in their ignore set), all but the one registered last.
+        self.ctxcls = None
+        self.ctx_members, self.ctxign = set(), set()
+        if (self.variant // 2) % 2 == 0 and not case.get("arch"):
+            for p in case["prog"]:
+                members = p["grp"][0] if p["kind"] == "point" and p["grp"] else []
+                if len(members) >= 2:
+                    self.ctx_members.update(members)
+                    self.ctxign.update(members[:-1])
+            if self.ctx_members:
+                self.ctxcls = type("VerifContext%d" % (id(self) % 100000), (ExecutionContext,), {})
         for i, p in enumerate(case["prog"]):
             self._define(i + 1, p)
         self._apply_enabled()
@@ -93,6 +108,7 @@ class Program(object):
             # a first evaluation of the same set of components, then the late registrations
             quiet = dr.Broker()
             quiet.store_skips = bool(case["ss"])
+            self.hold_context(quiet)
             for c in range(1, self.n + 1):
                 if case["prog"][c - 1]["seeded"]:
                     quiet[self.comp[c]] = None if case["prog"][c - 1]["outc"] == "none" else Val("seed", c)
@@ -107,6 +123,10 @@ class Program(object):
                 reg()
             self.log[:] = []
             self.elcount.clear()
+
+    def hold_context(self, broker):
+        if self.ctxcls is not None:
+            broker[self.ctxcls] = self.ctxcls()
 
     # -- projection -------------------------------------------------------
     def cid(self, obj):
@@ -197,7 +217,7 @@ class Program(object):
             return prog._finish(c, p, p["outc"], 0)
 
         def ds_body(broker):
-            args = [broker.get(d) for d in dr.get_delegate(ds_body).deps]
+            args = [broker.get(d) for d in dr.get_delegate(ds_body).deps if d is not prog.ctxcls]
             with prog.lock:
                 prog.log.append({"c": c, "args": [prog.proj(a) for a in args], "el": 0})
             return prog._finish(c, p, p["outc"], 0)
@@ -227,6 +247,8 @@ class Program(object):
                 pos.append([self.comp[d] for d in it["ds"]])
             else:
                 opt.append(self.comp[it["ds"][0]])
+        if c in self.ctx_members and kind == "datasource":
+            pos.append(self.ctxcls)
         kw = {}
         deco = DECOS[kind]
         if kind == "plain" and p["decl"] and (self.variant + c) % 2 == 1:
@@ -310,7 +332,7 @@ class Program(object):
                         "enabled": bool(p["enabled"]), "seeded": bool(p["seeded"]),
                         "ingraph": bool(p["ingraph"]) if keys is None else (c in keys),
                         "target": bool(p["ingraph"]),
-                        "ignore": sorted(p["ignore"])})
+                        "ignore": sorted(p["ignore"]) + ([0] if c in self.ctxign and kind == "datasource" else [])})
         while len(out) < npad:
             out.append({"kind": "plain", "decl": [], "req": [], "grp": [], "flat": [], "outc": "val",
                         "eouts": ["val"] * self.listlen, "coe": True, "enabled": False, "seeded": False,
@@ -382,7 +404,7 @@ class Recorder(object):
             if broker not in self.brokers:
                 self.brokers.append(broker)
             self.events.append({"ev": "sub", "w": w, "s": self.nsubs,
-                                "keys": sorted(self.prog.cid(k) for k in graph)})
+                                "keys": sorted(self.prog.cid(k) for k in graph if k is not self.prog.ctxcls)})
 
     def recs_of(self, broker, cur):
         out = []
@@ -549,6 +571,7 @@ def run_case(case, driver, npad, listlen, obsfail, idtag="", host=False):
         def mkbroker(bare=False):
             b = dr.Broker()
             b.store_skips = bool(case["ss"])
+            prog.hold_context(b)
             if bare:
                 return b
             observe(b)
@@ -589,6 +612,7 @@ def run_case(case, driver, npad, listlen, obsfail, idtag="", host=False):
             def __init__(self, seed_broker=None):
                 orig_broker.__init__(self, seed_broker)
                 self.store_skips = bool(case["ss"])
+                prog.hold_context(self)
                 if host:
                     self[HostContext] = HostContext()
                 self.add_observer(rec.observer)
@@ -609,6 +633,8 @@ def run_case(case, driver, npad, listlen, obsfail, idtag="", host=False):
                 # that cannot produce anything then (at least one required dependency or group, not a rule:
                 # a rule's skip response is a value), so the evaluation that is observed starts from the
                 # supplied values plus the reports, which the trace carries as its initial `missing`.
+                if prog.ctxcls is not None:
+                    return None
                 b = mkbroker(bare=True)
                 first = {}
                 for c in range(1, prog.n + 1):
@@ -679,6 +705,7 @@ def run_case(case, driver, npad, listlen, obsfail, idtag="", host=False):
                         dr.run_components, dr.determine_components = orig_rc, orig_dc
                         quiet = dr.Broker()
                         quiet.store_skips = bool(case["ss"])
+                        prog.hold_context(quiet)
                         for c in range(1, prog.n + 1):
                             if case["prog"][c - 1]["seeded"]:
                                 quiet[prog.comp[c]] = None if case["prog"][c - 1]["outc"] == "none" else Val("seed", c)
